@@ -83,7 +83,9 @@ def oracle(kind, tok):
         if p21ref.full(p21ref.RE_STR, b):
             return ('grammar', b)
         # properly delimited but with a bad escape inside: verbatim retention is tolerated
-        if len(b) >= 2 and b[:1] == b"'" and b[-1:] == b"'" and re.fullmatch(rb"(?:[^']|'')*", b[1:-1]):
+        # (an apostrophe is data after '' and, as the grammar's PAGE directive has it, after \S\ ; the reader finds the closing
+        #  quote by exactly these two rules, so '\\S\'' is 'delimited, with a bad escape inside' like '\a' is)
+        if len(b) >= 2 and b[:1] == b"'" and b[-1:] == b"'" and re.fullmatch(rb"(?:\\S\\'|[^']|'')*", b[1:-1]):
             return ('liberal', b)
         return ('invalid', None)
     if kind == 'BINARY':
